@@ -232,6 +232,7 @@ structure MState (N V : Type) where
   writeDict : List (String × V)
   believed : Dict N                      -- persistentData
   initData : List (String × V)
+  hooks : List String                    -- the names `n` for which `paramCallbacks[n]` holds `self.saveParameters`
 
 /-- `{k: v.export_value() for persistent parameters}` -/
 def exportAll {P N V : Type} (env : Env P N V) (ps : List (Param V)) : Dict N :=
@@ -266,14 +267,17 @@ def doSave (env : Env P N V) (ms : MState N V) (fault : Option Fault) : StepOut 
 def saveParameters (env : Env P N V) (ms : MState N V) (fault : Option Fault) : StepOut P N V :=
   if ms.writeDict.isEmpty then doSave env ms fault else ⟨ms, [], [], false⟩
 
-/-- `announceUpdate` of a (valid, changed) value: store, then the `auto` callback; exceptions of
-callbacks are swallowed (modulebase 547-551) -/
+/-- `announceUpdate` of a valid value (modulebase 547-583): store it, then call what is registered in
+`paramCallbacks[pname]` - for persistence that is `saveParameters`, registered by `addCallback` in
+`PersistentMixin.__init__` for the `auto` parameters.  An exception of a callback is swallowed (`except Exception:
+pass`), and the callback **stays registered**: `hooks` is not touched, so a save that failed is tried again at the
+next update. -/
 def announce (env : Env P N V) (ms : MState N V) (name : String) (v : V) (fault : Option Fault) :
     StepOut P N V :=
   let ms1 := { ms with params := setValue ms.params name v }
   match findParam ms.params name with
-  | some p =>
-    if p.persistent && p.auto then
+  | some _ =>
+    if ms.hooks.contains name then
       let o := saveParameters env ms1 fault
       ⟨o.ms, o.evs, [], false⟩
     else ⟨ms1, [], [], false⟩
@@ -328,6 +332,10 @@ def loadParameters (env : Env P N V) (ms : MState N V) (file : Option Bytes) (fa
 def factoryReset (env : Env P N V) (ms : MState N V) (fault : Option Fault) : StepOut P N V :=
   writeInit env { ms with writeDict := ms.initData.foldl (fun d e => dset d e.1 e.2) ms.writeDict } fault
 
+/-- `addCallback(pname, self.saveParameters)` for every parameter whose flag is `auto` (84-86) -/
+def autoNames (ps : List (Param V)) : List String :=
+  (ps.filter (fun p => p.persistent && p.auto)).map (·.name)
+
 /-- `PersistentMixin.__init__` (76-95) after `Module.__init__` produced `ps` (values = configured value or
 default, `given` set) and `wd0` (the configured values to be written) -/
 def startUp (env : Env P N V) (ps : List (Param V)) (wd0 : List (String × V)) (file : Option Bytes)
@@ -339,7 +347,8 @@ def startUp (env : Env P N V) (ps : List (Param V)) (wd0 : List (String × V)) (
     { params := ps1,
       writeDict := ps1.foldl startWrite wd0,
       believed := raw,
-      initData := (ps.filter (·.persistent)).map (fun p => (p.name, p.value)) }
+      initData := (ps.filter (·.persistent)).map (fun p => (p.name, p.value)),
+      hooks := autoNames ps }
   doSave env ms fault
 
 inductive Act (V : Type)
